@@ -605,48 +605,109 @@ def check_rem_first(P, ctx):
 
 
 def check_seq_layout(P, ctx, rule='C04.layout'):
-    """element addressing of Array and List agrees between allocation, access and release, symbolically in sizeof(struct Header)"""
-    Hs = poly.Poly.atom('H')
-    ts = poly.Poly.atom('arg0->tsize')
-    W = poly.Poly.const(8)
-    ab = util.accessor_body(P, 'Array_Step')
-    ok = ab is not None and poly.from_expr(ir.canon(ab[1])) == ts + Hs
-    ctx.check(ok, rule, 'Array_Step', site(P.fn('Array_Step')), 'an Array slot is header + element size bytes')
-    ab = util.accessor_body(P, 'Array_Item')
-    ok = ab is not None
-    if ok:
-        N = util.Norm(P, ab[0])
-        p_ = poly.from_expr(N.inline_only(ir.canon(ab[1]), 3)) - poly.Poly.atom('arg0->data')
-        ok = p_ == (ts + Hs) * poly.Poly.atom('arg1') + Hs
-    ctx.check(ok, rule, 'Array_Item', site(P.fn('Array_Item')), 'element i is at data + i*step + header')
+    """element addressing of Array and List agrees between allocation, access and release (evaluated with cint; the accessors are the
+    definition of the layout, header size from the configuration's struct Header)"""
+    from . import cint, absmodel
+    SELF = absmodel.SELF
+    HDR = 8 * len(P.records['Header']['fields']) if 'Header' in P.records else 24
+    # --- Array: slots do not overlap; a fresh slot is zeroed over header + element and stamped directly in front of the element
+    fn = P.fn('Array_Item')
+    ctx.fn(fn)
+    bad = None
+    unsup = None
+    try:
+        for tsize in (8, 24):
+            atoms = {('global', 'NULL'): 0, ('elem', 'self', 0, 'data'): 600000, ('elem', 'self', 0, 'tsize'): tsize, ('elem', 'self', 0, 'type'): 8500,
+                     ('elem', 'self', 0, 'nitems'): 4, ('elem', 'self', 0, 'nslots'): 4}
+            items = [absmodel.sub(P, 'Array_Item', [SELF, i], atoms) for i in range(4)]
+            step = absmodel.sub(P, 'Array_Step', [SELF], atoms) if P.fn('Array_Step', required=False) else items[1] - items[0]
+            for i in range(4):
+                lo, hi = items[i] - HDR, items[i] + tsize
+                if lo < 600000 + i * step or hi > 600000 + (i + 1) * step:
+                    bad = bad or 'element size %d: element %d with its header occupies offsets %d..%d, its slot is %d..%d (reallocations and shifts work in whole slots of %d bytes)' % (
+                        tsize, i, lo - 600000, hi - 600000, i * step, (i + 1) * step, step)
+    except absmodel.Unsupported as x:
+        unsup = str(x)
+    if unsup:
+        ctx.undecided(rule, 'Array_Item', site(fn), 'the accessor leaves the evaluated fragment: ' + unsup)
+    else:
+        ctx.check(bad is None, rule, 'Array_Item', site(fn), 'element i with its header lies inside slot i (data + i*step .. data + (i+1)*step)', [bad] if bad else None)
     fn = P.fn('Array_Alloc')
-    g = P.cfg(fn)
-    N = util.Norm(P, fn, expand_locals=True)
-    ms = [c for n in g.live() if n['expr'] is not None for c in ir.calls(n['expr']) if ir.callee_name(c) == 'memset']
-    hi = [c for n in g.live() if n['expr'] is not None for c in ir.calls(n['expr']) if ir.callee_name(c) == 'header_init']
-    slot = poly.Poly.atom('arg0->data') + (ts + Hs) * poly.Poly.atom('arg1')
-    ok = len(ms) == 1 and len(hi) == 1 and poly.from_expr(N.canon(ms[0][2][0])) == slot and poly.from_expr(N.canon(ms[0][2][2])) == ts + Hs and \
-        poly.from_expr(N.canon(hi[0][2][0])) == slot
-    ctx.check(ok, rule, 'Array_Alloc', site(fn), 'a new slot is zeroed over one whole step and stamped at the slot start')
-    tl = poly.Poly.atom('arg0->tsize')
+    ctx.fn(fn)
+    bad, unsup = None, None
+    for tsize in (8, 24):
+        for i in (0, 2):
+            atoms = {('global', 'NULL'): 0, ('elem', 'self', 0, 'data'): 600000, ('elem', 'self', 0, 'tsize'): tsize, ('elem', 'self', 0, 'type'): 8500,
+                     ('elem', 'self', 0, 'nitems'): 4, ('elem', 'self', 0, 'nslots'): 4}
+            ev_ = []
+
+            def call(nm, e, it, ev_=ev_):
+                if nm == 'memset':
+                    ev_.append(('zero', it.ev(e[2][0]), it.ev(e[2][1]), it.ev(e[2][2])))
+                    return it.ev(e[2][0])
+                if nm == 'header_init':
+                    ev_.append(('stamp', it.ev(e[2][0]), it.ev(e[2][1]), it.ev(e[2][2])))
+                    return it.ev(e[2][0]) + HDR
+                if nm == 'size':
+                    return tsize
+                raise cint.NoEval('call %s' % nm)
+            r = cint.CInt(P, fn, atoms=atoms, call=call, recurse=True).run([SELF, i])
+            if r[0] != 'ret':
+                unsup = '%s' % (r[1],)
+                continue
+            item = absmodel.sub(P, 'Array_Item', [SELF, i], atoms)
+            stamps = [x for x in ev_ if x[0] == 'stamp']
+            zeros = [x for x in ev_ if x[0] == 'zero']
+            if stamps != [('stamp', item - HDR, 8500, P.enums.get('AllocData', 2))]:
+                bad = bad or 'slot %d: header initialised as %s, the element needs (offset %d, the element type, AllocData)' % (i, [(x[1] - 600000,) + x[2:] for x in stamps], item - HDR - 600000)
+            elif not any(z[2] == 0 and z[1] <= item - HDR and z[1] + z[3] >= item + tsize for z in zeros) or (zeros and ev_.index(zeros[0]) > ev_.index(stamps[0])):
+                bad = bad or 'slot %d: the new element (header and %d bytes) is not zeroed before it is stamped' % (i, tsize)
+    if unsup and not bad:
+        ctx.undecided(rule, 'Array_Alloc', site(fn), 'leaves the evaluated fragment: ' + unsup)
+    else:
+        ctx.check(bad is None, rule, 'Array_Alloc', site(fn), 'a new slot is zeroed over header and element and stamped directly in front of the element', [bad] if bad else None)
+    # --- List: the block covers links, header and element without overlap; List_Free releases that block
     fn = P.fn('List_Alloc')
-    g = P.cfg(fn)
-    N = util.Norm(P, fn, expand_locals=False)
-    cs = [c for n in g.live() if n['expr'] is not None for c in ir.calls(n['expr']) if ir.callee_name(c) == 'calloc']
-    hi = [c for n in g.live() if n['expr'] is not None for c in ir.calls(n['expr']) if ir.callee_name(c) == 'header_init']
-    ok = len(cs) == 1 and len(hi) == 1 and poly.from_expr(N.canon(cs[0][2][0])) * poly.from_expr(N.canon(cs[0][2][1])) == W * poly.Poly.const(2) + Hs + tl and \
-        poly.from_expr(N.canon(hi[0][2][0])) - poly.Poly.atom('item') == W * poly.Poly.const(2)
-    ctx.check(ok, rule, 'List_Alloc', site(fn), 'a List node is two link words, a header and the element; the header sits behind the links')
-    for f, want in (('List_Next', -(Hs + W)), ('List_Prev', -(Hs + W * poly.Poly.const(2)))):
-        ab = util.accessor_body(P, f)
-        ok = ab is not None and poly.from_expr(ir.canon(ab[1])) - poly.Poly.atom('arg1') == want
-        ctx.check(ok, rule, f, site(P.fn(f)), 'link word at its offset before the element (header + %s words back)' % ('one' if f == 'List_Next' else 'two'))
+    ctx.fn(fn)
+    try:
+        bad, unsup = absmodel.eval_node_alloc(P, 'List')
+    except absmodel.Unsupported as x:
+        bad, unsup = None, str(x)
+    if unsup and not bad:
+        ctx.undecided(rule, 'List_Alloc', site(fn), 'the allocator leaves the evaluated fragment: ' + unsup)
+    else:
+        ctx.check(bad is None, rule, 'List_Alloc', site(fn), 'a List node is two link words, a header and the element: the block covers them where List_Next/List_Prev place the links, '
+                  'without overlap; the header sits directly in front of the element', [bad] if bad else None)
     fn = P.fn('List_Free')
-    N = util.Norm(P, fn)
-    fr = [c for c, _ in ir.all_calls(fn['body']) if ir.callee_name(c) == 'free']
-    ok = len(fr) == 1 and poly.from_expr(N.canon(fr[0][2][0])) - poly.Poly.atom('arg1') == -(Hs + W * poly.Poly.const(2))
-    ctx.check(ok, rule, 'List_Free', site(fn), 'the node block freed is the element minus header minus two link words: the block List_Alloc obtained')
-    ctx.floor(rule, 7)
+    ctx.fn(fn)
+    bad, unsup = None, None
+    for tsize in (8, 24):
+        atoms = {('global', 'NULL'): 0, ('elem', 'self', 0, 'tsize'): tsize, ('elem', 'self', 0, 'type'): 8500}
+        st = {}
+
+        def call(nm, e, it, st=st):
+            if nm in ('calloc', 'malloc'):
+                return 100000
+            if nm == 'header_init':
+                return it.ev(e[2][0]) + HDR
+            if nm == 'free':
+                st['freed'] = it.ev(e[2][0])
+                return 0
+            raise cint.NoEval('call %s' % nm)
+        r = cint.CInt(P, P.fn('List_Alloc'), atoms=atoms, call=call, recurse=True, mem=lambda a, it: 0, memw=lambda a, v, w, it: None).run([SELF])
+        if r[0] != 'ret' or not isinstance(r[1], int):
+            unsup = 'List_Alloc: %s' % (r[1],)
+            continue
+        r2 = cint.CInt(P, fn, atoms=atoms, call=call, recurse=True).run([SELF, r[1]])
+        if r2[0] != 'ret':
+            unsup = '%s' % (r2[1],)
+        elif st.get('freed') != 100000:
+            bad = bad or 'element size %d: releases the address %s bytes into the block List_Alloc obtained' % (tsize, (st['freed'] - 100000) if isinstance(st.get('freed'), int) else '?')
+    if unsup and not bad:
+        ctx.undecided(rule, 'List_Free', site(fn), 'leaves the evaluated fragment: ' + unsup)
+    else:
+        ctx.check(bad is None, rule, 'List_Free', site(fn), 'the node block freed is the block List_Alloc obtained for that element', [bad] if bad else None)
+    ctx.floor(rule, 4)
 
 
 def check_list_count(P, ctx, rule='C04.count-tracks-links'):
